@@ -274,6 +274,18 @@ class Interp:
                 "xor": PyFunc(lambda a, b: self.binop(ast.BitXor(), a, b), "operator.xor", True),
                 "or_": PyFunc(lambda a, b: self.binop(ast.BitOr(), a, b), "operator.or_", True),
                 "and_": PyFunc(lambda a, b: self.binop(ast.BitAnd(), a, b), "operator.and_", True),
+                "iadd": PyFunc(lambda a, b: (a.extend(list(b)), a)[1] if isinstance(a, list) and not isinstance(a, GenList) and isinstance(b, (list, tuple)) else self.binop(ast.Add(), a, b), "operator.iadd", True),
+                "isub": PyFunc(lambda a, b: self.binop(ast.Sub(), a, b), "operator.isub", True),
+                "imul": PyFunc(lambda a, b: self.binop(ast.Mult(), a, b), "operator.imul", True),
+                "itruediv": PyFunc(lambda a, b: self.binop(ast.Div(), a, b), "operator.itruediv", True),
+                "ixor": PyFunc(lambda a, b: self.binop(ast.BitXor(), a, b), "operator.ixor", True),
+                "ior": PyFunc(lambda a, b: self.binop(ast.BitOr(), a, b), "operator.ior", True),
+                "iand": PyFunc(lambda a, b: self.binop(ast.BitAnd(), a, b), "operator.iand", True),
+                "lshift": PyFunc(lambda a, b: self.binop(ast.LShift(), a, b), "operator.lshift", True),
+                "abs": PyFunc(lambda a: self._abs(a), "operator.abs", True),
+                "is_": PyFunc(lambda a, b: self.compare(ast.Is(), a, b, None), "operator.is_", True),
+                "is_not": PyFunc(lambda a, b: self.compare(ast.IsNot(), a, b, None), "operator.is_not", True),
+                "setitem": PyFunc(lambda a, k, v: a.__setitem__(k, v) if isinstance(a, (list, dict)) else (_ for _ in ()).throw(NoValue("operator.setitem")), "operator.setitem", True),
                 "neg": PyFunc(lambda a: self.unop(ast.USub(), a), "operator.neg", True),
                 "pos": PyFunc(lambda a: self.unop(ast.UAdd(), a), "operator.pos", True),
                 "invert": PyFunc(lambda a: self.unop(ast.Invert(), a), "operator.invert", True),
@@ -393,12 +405,14 @@ class Interp:
             "starmap": PyFunc(lambda f, q: [self.call(f, list(xs), {}) for xs in seq(q)], "starmap", True),
             "accumulate": PyFunc(accumulate, "accumulate", True),
             "zip_longest": PyFunc(zip_longest, "zip_longest", True),
-            "islice": PyFunc(lambda q, *a: list(_it.islice(_Consuming(q) if isinstance(q, GenList) else seq(q), *a)), "islice", True),
+            "islice": PyFunc(lambda q, *a: list(_it.islice(q.attrs["iter"] if isinstance(q, Obj) and q.kind == "lazy-iter" else
+                                                           self._count_iter(q) if isinstance(q, Obj) and q.kind == "itertools.count" else
+                                                           _Consuming(q) if isinstance(q, GenList) else seq(q), *a)), "islice", True),
             "takewhile": PyFunc(lambda f, q: list(_it.takewhile(lambda x: self.truth(self.call(f, [x], {})), seq(q))), "takewhile", True),
             "dropwhile": PyFunc(lambda f, q: list(_it.dropwhile(lambda x: self.truth(self.call(f, [x], {})), seq(q))), "dropwhile", True),
             "filterfalse": PyFunc(lambda f, q: [x for x in seq(q) if not self.truth(self.call(f, [x], {}) if f is not None else x)], "filterfalse", True),
             "compress": PyFunc(lambda q, sel: [x for x, s_ in zip(seq(q), seq(sel)) if self.truth(s_)], "compress", True),
-            "count": PyFunc(lambda *a: (_ for _ in ()).throw(NoValue("itertools.count is unbounded")), "count", True),
+            "count": PyFunc(lambda start=0, step=1: Obj("itertools.count", {"next": start, "step": step, "fmt": f"count({start})"}), "count", True),
             "pairwise": PyFunc(lambda q: list(zip(seq(q), seq(q)[1:])), "pairwise", True),
         }
 
@@ -602,6 +616,13 @@ class Interp:
             return Unk("signature")
         return Obj("Signature", {"parameters": {n: Obj("Parameter", {"name": n, "fmt": n}) for n in names}, "fmt": f"({', '.join(names)})"})
 
+    def _count_iter(self, c):
+        """The unbounded counter as a lazy Python iterator that advances the stand-in's state."""
+        while True:
+            v = c.attrs["next"]
+            c.attrs["next"] = self.binop(ast.Add(), v, c.attrs["step"])
+            yield v
+
     def _zip(self, *seqs, **k):
         """zip over lists and generator objects with Python's consumption: every generator object is advanced exactly as
         far as zip advances it (the same object given twice is advanced twice per tuple)."""
@@ -609,6 +630,12 @@ class Interp:
         its = []
         for q in seqs:
             q = self._iterable(q)
+            if isinstance(q, Obj) and q.kind == "itertools.count":
+                its.append(iters.setdefault(id(q), self._count_iter(q)))
+                continue
+            if isinstance(q, Obj) and q.kind == "lazy-iter":
+                its.append(q.attrs["iter"])
+                continue
             if isinstance(q, (Unk, T, Obj)):
                 raise NoValue("zip over an unknown iterable")
             if isinstance(q, GenList):
@@ -741,6 +768,15 @@ class Interp:
 
     def _next(self, it, *default):
         """next() on an eagerly evaluated generator: the list holds what is still to come."""
+        if isinstance(it, Obj) and it.kind == "itertools.count":
+            return next(self._count_iter(it))
+        if isinstance(it, Obj) and it.kind == "lazy-iter":
+            try:
+                return next(it.attrs["iter"])
+            except StopIteration:
+                if default:
+                    return default[0]
+                raise Raised("StopIteration")
         if not isinstance(it, GenList):
             if isinstance(it, (list, tuple, dict, str)):
                 raise Raised("TypeError")
@@ -2190,6 +2226,20 @@ class Interp:
         results = []
         sub = Env({}, env.flat(), env.module, self)
         sub.comprehension_of = env
+        if isinstance(node, ast.GeneratorExp) and len(node.generators) == 1:
+            first = self.eval(node.generators[0].iter, sub)
+            if isinstance(first, Obj) and first.kind in ("itertools.count", "lazy-iter"):
+                # a generator expression over an unbounded iterator stays lazy: whoever consumes it (zip, islice, next)
+                # pulls one element at a time
+                src = self._count_iter(first) if first.kind == "itertools.count" else first.attrs["iter"]
+                g = node.generators[0]
+
+                def lazy():
+                    for x in src:
+                        self.assign(g.target, x, sub)
+                        if all(self.truth(self.eval(c, sub), c) for c in g.ifs):
+                            yield self.eval(node.elt, sub)
+                return Obj("lazy-iter", {"iter": lazy(), "fmt": "<generator>"})
 
         def rec(i):
             if i == len(node.generators):
